@@ -344,8 +344,13 @@ def build_T4t(tree):
     withs = [n for n in ast.walk(it) if isinstance(n, ast.With) and _norm(n.items[0].context_expr) == 'self._generate_temp_tables(channel_table_defs)']
     if len(withs) != 1 or not any(isinstance(n, ast.Yield) for n in ast.walk(withs[0])):
         raise Unsupported('_iterate_indices_for_tiled_region no longer yields inside `with self._generate_temp_tables(channel_table_defs)`')
-    if any(isinstance(n, ast.Try) for n in ast.walk(it)):
-        raise Unsupported('_iterate_indices_for_tiled_region: try statement (not modelled)')
+    # the only try statement of the iterator closes the cursor of the query around its `yield` (no handler: exceptions of the body
+    # still pass through `_generate_temp_tables`)
+    tries = [n for n in ast.walk(it) if isinstance(n, ast.Try)]
+    if len(tries) > 1 or any(t.handlers or t.orelse or len(t.body) != 1 or not isinstance(t.body[0], ast.Expr)
+                             or not isinstance(t.body[0].value, ast.Yield) or [_norm(x) for x in t.finalbody] != ['cursor.close()']
+                             for t in tries):
+        raise Unsupported('_iterate_indices_for_tiled_region: try statement other than `try: yield ... finally: cursor.close()`')
     # the channel table: first column OutputChannelIndex UNIQUE, joined on the query columns
     pct = find_func(tree, '_Image._prepare_channel_tables')
     ptxt = ''.join(ast.unparse(pct).split())
